@@ -159,6 +159,20 @@ def _identity_coarsened(helper: FuncInfo) -> tuple[ast.AST, FuncInfo] | None:
     return None
 
 
+def _fieldwise_merge(helper: FuncInfo) -> ast.AST | None:
+    """An operation-level parameter REPLACES the path-level one with the same (name, in). Returns the place where the merge
+    helper combines two definitions key by key instead (`{**a, **b}`, `a | b`, `dict(a, **b)`, `.update(...)` on a copy)."""
+    for n in walk_body(helper.node):
+        for x in ast.walk(n):
+            if isinstance(x, ast.Dict) and sum(1 for k in x.keys if k is None) >= 2:
+                return x
+            if isinstance(x, ast.Call) and last_attr(x) == "dict" and x.args and any(k.arg is None for k in x.keywords):
+                return x
+            if isinstance(x, ast.Call) and last_attr(x) in ("ChainMap", "merge", "deepmerge") and len(x.args) >= 2:
+                return x
+    return None
+
+
 def _helper_filters_shared(helper: FuncInfo) -> bool | None:
     """H(op, shared): builds a key set from its first parameter and skips entries of the second whose key is in it."""
     params = params_of(helper.node)
@@ -237,7 +251,10 @@ def r2_merge_order(chk: Check) -> None:
                     kinds = [_classify_param_source(fn, a) for a in e.args]
                     verdict = _helper_filters_shared(r[1])  # type: ignore[arg-type]
                     coarse = _identity_coarsened(r[1])  # type: ignore[arg-type]
-                    if coarse is not None:
+                    fieldwise = _fieldwise_merge(r[1])  # type: ignore[arg-type]
+                    if fieldwise is not None:
+                        chk.violation("C08.R2", fn, construct, f"the merge helper combines two definitions field by field (`{unparse(fieldwise, 60)}`): an operation-level parameter that omits a field (`required`, `schema` keywords, `style`) silently inherits it from the path-level definition it is supposed to REPLACE - the operation is offered with parameters nobody declared", r[1].loc(fieldwise))  # type: ignore[union-attr]
+                    elif coarse is not None:
                         chk.violation("C08.R2", fn, construct, f"the merge helper identifies parameters by a TRANSFORMED name (`{unparse(coarse[0], 60)}` in {coarse[1].name}): two distinct parameters of one location whose names differ only in that respect (`Filter` / `filter` in the query) count as one, and the path-level one silently disappears from the operation", coarse[1].loc(coarse[0]))
                     elif kinds == ["op", "shared"] and verdict is True:
                         chk.ok("C08.R2", fn, construct, "helper drops path-level entries shadowed by (name, in)", fn.loc(c))
